@@ -523,11 +523,9 @@ Definition teardown_stamps (s : est) : est * list tev :=
 Definition destroy_weights (hooks : list hook) : list Z :=
   zsort_uniq (trig_weights hooks MDestroy ++ trig_weights hooks MAfterDestroy).
 Definition destroy_hooks_at (hooks : list hook) (w : Z) : list hook :=
-  (* hooksMapForDestroy[k] = v overwrites: after_DESTROY wins over DESTROY at equal weight *)
-  match hooks_at hooks (MAfterDestroy, w) with
-  | [] => hooks_at hooks (MDestroy, w)
-  | l => l
-  end.
+  (* the after_DESTROY hooks of a weight are appended to its DESTROY hooks (they used to replace
+     them: former finding C08-b) *)
+  hooks_at hooks (MDestroy, w) ++ hooks_at hooks (MAfterDestroy, w).
 Definition destroy_trace (hooks : list hook) (orc : oracle) (s : est) : list tev :=
   flat_map (fun w =>
     let hs := destroy_hooks_at hooks w in
@@ -899,7 +897,8 @@ Definition is_OM_begin (n : stepname) (r : orec) : bool :=
           8 crash or hang
           9 a well-formed trigger expression was not read as name, signed weight (see below)
          10 a call left callsPendingAwait during an operation (taken as collected) although its
-            function had not returned by the end of the operation                            *)
+            function had not returned by the end of the operation
+         11 a teardown that succeeded did not run a declared DESTROY / after_DESTROY call hook  *)
 
 Definition op_event (o : op) : option evt :=
   match o_kind o with OEvent e => Some e | OForceError => Some GO_ERROR | _ => None end.
@@ -1030,6 +1029,15 @@ Definition dropped_returned_ok (before recs : list orec) (opi : N)
   forallb (fun x => existsb (fun p => id_eqb (snd (fst p)) x) pend_after ||
                     existsb (is_OE x) (before ++ prefix_until (fun r => match r with OX => true | _ => false end) recs)) cand.
 
+(* code 11: every call hook declared at DESTROY / after_DESTROY ran in a successful teardown *)
+Definition destroy_hooks_ran_ok (hooks : list hook) (recs : list orec) (opi : N) : bool :=
+  forallb (fun hk =>
+    match h_kind hk, fst (h_trig hk) with
+    | HCall, MDestroy | HCall, MAfterDestroy =>
+      existsb (fun r => match r with OS h o _ => (h =? h_id hk) && (o =? opi) | _ => false end) recs
+    | _, _ => true
+    end) hooks.
+
 (* walk over the operations with the observed state before each *)
 Fixpoint mon08_ops (hooks : list hook) (ops : list op) (oos : list opobs) (segs : list (list orec))
          (before : list orec) (src : st) (pend : list (point * (N * N) * bool)) (opi : N) : N :=
@@ -1050,7 +1058,12 @@ Fixpoint mon08_ops (hooks : list hook) (ops : list op) (oos : list opobs) (segs 
         end
       | None =>
         if is_cancel_op o then
-          if forallb (fun p => snd p) (oo_pend oo) then 0 else 6
+          if forallb (fun p => snd p) (oo_pend oo) then
+            match o_kind o, oo_res oo with
+            | OTeardown, XOk => if destroy_hooks_ran_ok hooks recs opi then 0 else 11
+            | _, _ => 0
+            end
+          else 6
         else 0
       end in
     let c := if c =? 0 then (if dropped_returned_ok before recs opi pend (oo_pend oo) then 0 else 10) else c in
